@@ -6,7 +6,7 @@ from bounded.common import outcome
 from bounded import gen
 
 RULE = ("strands: all over ACGT of length 0..6 (quick) / 0..8 (thorough) + seeded up to 300 nt; check lengths 1..4 (+ 7, 12 on seeded "
-        "ones): set_vt == vt_spec, length n; every single substitution and every single insertion/deletion of C, G or T at every position "
+        "ones; + 32, 33, 34, 40, 70 - at and beyond the 64-bit boundary 4^(n-1) >= 2^63 - on a few strands): set_vt == vt_spec, length n; every single substitution and every single insertion/deletion of C, G or T at every position "
         "changes the check; decode with the original check rejects (complete order-1/2 graph, where every strand is a walk); "
         "non-trivial = strand length >= 2")
 EXHAUSTIVE = {"quick": False, "thorough": False}
@@ -17,6 +17,8 @@ def cases(tier, rng):
     for n in range(0, 7 if tier == "quick" else 9):
         for t in itertools.product("ACGT", repeat=n):
             yield {"s": "".join(t), "ns": [1, 2, 3, 4] if n <= 5 else [1, 3], "nt": n >= 2}
+    for s_ in ("", "A", "ACGT", "TCTCTCT", "ACGTACGGTCAACGTTTGCA"):
+        yield {"s": s_, "ns": [32, 33, 34, 40, 70], "nt": len(s_) >= 2}
     for _ in range(60 if tier == "quick" else 1500):
         n = rng.randint(7, 300)
         yield {"s": "".join(rng.choice("ACGT") for _ in range(n)), "ns": [1, 2, 4, 7, 12], "nt": True}
@@ -31,7 +33,7 @@ def check(case):
         o = outcome(set_vt, s, n)
         want = S.vt_spec(s, n)
         if o != ("ok", want):
-            fp = "set_vt:empty-strand" if s == "" else "set_vt:value"
+            fp = "set_vt:empty-strand" if (s == "" and n < 32) else "set_vt:value"
             fails.append((fp, f"set_vt({s!r}, {n}) -> {o!r}, documented value {want!r}"))
             continue
         chk = o[1]
